@@ -1,0 +1,12 @@
+//go:build !verif
+
+package smtp
+
+import "net"
+
+// Without the "verif" build tag the verification hooks are no-ops that the
+// compiler removes.
+
+func verifDial(network, addr string) (net.Conn, error, bool) { return nil, nil, false }
+
+func verifYield(point string) {}
